@@ -275,7 +275,7 @@ def prove_after_closed(src_root, ex: Explorer):
         sent = []
         it.hooks[f'{CONN}:DataConnection._send'] = lambda it2, f, a, k: A.SimpleAwaitable(it2.aio, '_send', lambda it3: sent.append(a[1]))
         try:
-            run(it, it.getattr(c, 'send_message'), Opaque('message'))
+            run(it, it.getattr(c, 'send_message'), new(it, 'protocol.messages', 'Ping.Request'))
         except (PyRaise, Unsupported) as e:
             if isinstance(e, Unsupported):
                 raise
